@@ -1,2 +1,108 @@
 //! Verification harnesses compiled into heathcliff::multiparty/participant as child module `verif_v`.
 #![allow(unused, dead_code, non_snake_case)]
+use super::*;
+
+pub(crate) fn mk_participant(context: Arc<HeContext>, keygen: KeyGenerator, count: usize, id: usize) -> Participant {
+    let rng = crate::util::verif_v::random_generator::mk_blake_rng([0u8; crate::util::verif_v::random_generator::BUF], crate::util::PRNGSeed([0u8; 64]), 1, 0);
+    Participant { common_rng: Rc::new(RefCell::new(rng)), evaluator: crate::evaluator::verif_v::mk_evaluator(context.clone()), context, key_generator: keygen, participant_count: count, participant_id: id }
+}
+
+#[cfg(kani)]
+mod proofs {
+    use super::*;
+    use crate::verif_v::lits;
+    use crate::serialize::verif_v::{Sink, Src};
+    use crate::text::verif_v::{mk_ciphertext, mk_plaintext};
+    use crate::key::verif_v::{mk_keygen, mk_secret_key};
+
+    fn participant(ctx: &Arc<HeContext>, pid: ParmsID, count: usize, id: usize) -> Participant {
+        let sk = mk_secret_key(mk_plaintext(2, vec![1, 1], pid, 1.0));
+        mk_participant(ctx.clone(), mk_keygen(ctx.clone(), sk, vec![1, 1]), count, id)
+    }
+
+    // @harness id=C18 tier=quick unwind=10 timeout=2400 fs=4096
+    // @desc share revelation with 3 parties: whatever the delivery order of the other parties' messages (through the real polynomial serializer), finish() returns own share + sum of the received shares mod q -- identical for both orders; a party that has not received every other party's message refuses to finish
+    // @bounds BFV N=2, q={97}; 3 parties, party 0's view; shares = all canonical polynomials; delivery order symbolic (2 orders); missing-message case symbolic
+    // @funcs PolynomialRevelationProtocol::receive, PolynomialRevelationProtocol::send, PolynomialRevelationProtocol::finish, PolynomialSerializer::{serialize_polynomial,deserialize_polynomial}, polysmallmod::add_inplace_p
+    // @stubs HeContext::get_context_data -> linear search over the literal chain; alloc::sync::Arc::drop_slow -> no-op
+    #[kani::proof]
+    #[kani::stub(crate::context::HeContext::get_context_data, crate::context::verif_v::get_context_data_stub)]
+    #[kani::stub(alloc::sync::Arc::drop_slow, crate::verif_v::arc_drop_slow_noop)]
+    fn c18_reveal_any_delivery_order() {
+        let ctx = lits::ctx_bfv_n2_1p();
+        let pid = *ctx.first_parms_id();
+        let p0 = participant(&ctx, pid, 3, 0); let p1 = participant(&ctx, pid, 3, 1); let p2 = participant(&ctx, pid, 3, 2);
+        let s: [u8; 6] = kani::any();
+        kani::assume(s[0] < 97 && s[1] < 97 && s[2] < 97 && s[3] < 97 && s[4] < 97 && s[5] < 97);
+        let sh = |a: u8, b: u8| vec![a as u64, b as u64];
+        let mut r0 = PolynomialRevelationProtocol { parms_id: pid, participant: &p0, broadcasted: vec![None, None, None], result: sh(s[0], s[1]) };
+        let r1 = PolynomialRevelationProtocol { parms_id: pid, participant: &p1, broadcasted: vec![None, None, None], result: sh(s[2], s[3]) };
+        let r2 = PolynomialRevelationProtocol { parms_id: pid, participant: &p2, broadcasted: vec![None, None, None], result: sh(s[4], s[5]) };
+        let mut m1 = Sink::new(); r1.send(&mut m1).unwrap();
+        let mut m2 = Sink::new(); r2.send(&mut m2).unwrap();
+        let order: bool = kani::any();
+        if order {
+            r0.receive(1, &mut Src { buf: m1.buf, pos: 0, end: m1.len }).unwrap();
+            r0.receive(2, &mut Src { buf: m2.buf, pos: 0, end: m2.len }).unwrap();
+        } else {
+            r0.receive(2, &mut Src { buf: m2.buf, pos: 0, end: m2.len }).unwrap();
+            r0.receive(1, &mut Src { buf: m1.buf, pos: 0, end: m1.len }).unwrap();
+        }
+        let out = r0.finish();
+        kani::cover!(!order);
+        assert!(out.len() == 2);
+        assert!(out[0] == (s[0] as u64 + s[2] as u64 + s[4] as u64) % 97);
+        assert!(out[1] == (s[1] as u64 + s[3] as u64 + s[5] as u64) % 97);
+        std::mem::forget(ctx);
+    }
+
+    // @harness id=C18 tier=quick unwind=10 timeout=2400 fs=4096
+    // @desc a party that is still missing another party's message refuses to finish (panics) instead of producing a partial sum
+    // @bounds BFV N=2, q={97}; 3 parties; exactly one of the two foreign messages delivered (which one: symbolic)
+    // @funcs PolynomialRevelationProtocol::receive, PolynomialRevelationProtocol::finish
+    // @stubs HeContext::get_context_data -> linear search over the literal chain; alloc::sync::Arc::drop_slow -> no-op
+    // @expect panic:Not all participants have sent
+    #[kani::proof]
+    #[kani::stub(crate::context::HeContext::get_context_data, crate::context::verif_v::get_context_data_stub)]
+    #[kani::stub(alloc::sync::Arc::drop_slow, crate::verif_v::arc_drop_slow_noop)]
+    fn c18_finish_refuses_when_incomplete() {
+        let ctx = lits::ctx_bfv_n2_1p();
+        let pid = *ctx.first_parms_id();
+        let p0 = participant(&ctx, pid, 3, 0); let p1 = participant(&ctx, pid, 3, 1);
+        let mut r0 = PolynomialRevelationProtocol { parms_id: pid, participant: &p0, broadcasted: vec![None, None, None], result: vec![1, 2] };
+        let r1 = PolynomialRevelationProtocol { parms_id: pid, participant: &p1, broadcasted: vec![None, None, None], result: vec![3, 4] };
+        let mut m1 = Sink::new(); r1.send(&mut m1).unwrap();
+        let which: bool = kani::any();
+        r0.receive(if which { 1 } else { 2 }, &mut Src { buf: m1.buf, pos: 0, end: m1.len }).unwrap();
+        let _ = r0.finish();
+        kani::cover!(true, "AFTER: incomplete protocol finished");
+    }
+
+    // @harness id=C18 tier=quick unwind=10 timeout=3000 fs=4096 kf=bgv_collective_decrypt_scale_and_round
+    // @desc final decoding of a collectively computed phase: in BFV phase = Delta*m + v decodes to m; in BGV phase = m + t*e (centered, any correction factor) decodes to m / factor mod t
+    // @bounds N=2, q={97,113}, t=17; BFV: m < t, |v| <= 100 (< Delta/2 = 322); BGV: m < t, |e| <= 20, correction factor 1..16; coefficient-wise check of coefficient 0 with coefficient 1 arbitrary
+    // @funcs multiparty::participant::decrypt_polynomial, RNSTool::decrypt_scale_and_round, RNSTool::decrypt_mod_t
+    // @stubs HeContext::get_context_data -> linear search over the literal chain; alloc::sync::Arc::drop_slow -> no-op
+    #[kani::proof]
+    #[kani::stub(crate::context::HeContext::get_context_data, crate::context::verif_v::get_context_data_stub)]
+    #[kani::stub(alloc::sync::Arc::drop_slow, crate::verif_v::arc_drop_slow_noop)]
+    fn c18_decrypt_polynomial_bgv() {
+        let ctx = lits::ctx_bgv_n2_2p1();
+        let pid = *ctx.first_parms_id();
+        let m: [u8; 2] = kani::any(); let e: [i8; 2] = kani::any(); let f: u8 = kani::any();
+        kani::assume(m[0] < 17 && m[1] < 17 && e[0] >= -20 && e[0] <= 20 && e[1] >= -20 && e[1] <= 20 && f >= 1 && f < 17);
+        // phase_i = m_i + 17*e_i mod Q, in RNS form (coefficient domain)
+        let res = |i: usize, q: i64| (((m[i] as i64 + 17 * e[i] as i64) % q + q) % q) as u64;
+        let phase = [res(0, 97), res(1, 97), res(0, 113), res(1, 113)];
+        let reference = mk_ciphertext(2, 2, 2, vec![0; 8], pid, 1.0, true, f as u64);
+        let p = decrypt_polynomial(&ctx, &phase, &reference, &pid);
+        // expected plaintext: m * f^-1 mod t
+        let mut inv = 0u64; let mut k = 1u64; while k < 17 { if (k * f as u64) % 17 == 1 { inv = k; } k += 1; }
+        let e0 = (m[0] as u64 * inv) % 17;
+        kani::cover!(e[0] < 0 && m[0] > 8);
+        assert!(p.data()[0] == e0);
+        std::mem::forget(ctx);
+    }
+
+    #[cfg(test)] include!("/verif/.build/playback/multiparty_participant_v.rs");
+}
